@@ -386,7 +386,11 @@ func canon(s string, depth int) string {
 	case s[0] == '"':
 		return s
 	case s[0] == '!':
-		return "!" + canon(s[1:], depth+1)
+		in := canon(s[1:], depth+1)
+		if strings.HasPrefix(in, "!") {
+			return in[1:]
+		}
+		return "!" + in
 	case s[0] == '&' && len(s) > 1 && s[1] != ' ':
 		return "&" + canon(s[1:], depth+1)
 	case strings.HasPrefix(s, "<-"):
@@ -451,6 +455,13 @@ func canon(s string, depth int) string {
 				cl, cr = cr, cl
 			}
 			return "(" + cl + " " + op + " " + cr + ")"
+		case "<=":
+			// integers are totally ordered: a <= b  =  !(b < a)
+			cl, cr := canon(l, depth+1), canon(r, depth+1)
+			if nonArithOperand(cl) || nonArithOperand(cr) {
+				return "(" + cl + " <= " + cr + ")"
+			}
+			return "!" + canon("("+cr+" < "+cl+")", depth+1)
 		case "<":
 			cl, cr := canon(l, depth+1), canon(r, depth+1)
 			// a length is never negative: len(x) < 1  =  0 == len(x)
